@@ -9,8 +9,8 @@ CONSTANTS MaxC,       \* length constants 0..MaxC in the one-atom family
 
 RecOps == LenOps \ {"!="}
 NeedsOpt(cls) == \E j \in 1..Len(cls) : \E a \in Range(cls[j]) : a.g \in SameGuards
-Scn(kind, wmt, cls, prim) == [kind |-> kind, opt |-> NeedsOpt(cls), wmt |-> wmt, shape |-> "chain", cls |-> cls, prim |-> prim]
-Dia(kind, shape, cls, prim) == [kind |-> kind, opt |-> NeedsOpt(cls), wmt |-> TRUE, shape |-> shape, cls |-> cls, prim |-> prim]
+Scn(kind, wmt, cls, prim) == [kind |-> kind, opt |-> NeedsOpt(cls), wmt |-> wmt, shape |-> "chain", porder |-> <<>>, impl |-> 0, cls |-> cls, prim |-> prim]
+Dia(kind, shape, cls, prim) == [kind |-> kind, opt |-> NeedsOpt(cls), wmt |-> TRUE, shape |-> shape, porder |-> <<>>, impl |-> 0, cls |-> cls, prim |-> prim]
 LenU(ops, cs, sides, gs) == {LenAtom(op, c, sd, g, "const") : op \in ops, c \in cs, sd \in sides, g \in gs}
 Small(cs) == LenU({"<=", ">=", "=="}, cs, {"L"}, {"none"})
 
@@ -48,7 +48,25 @@ D5 == UNION {
         \cup { Dia("str", sh, <<<<>>, <<PatAtom(<<"ab">>, "none")>>, <<PatAtom(<<"bc">>, "none"), LenAtom("<=", 3, "L", "none", "const")>>, <<>>>>, <<>>) }
         : sh \in {"dia_ab", "dia_ba"} }
 
-Families == <<D1, D2, D3, D4, D5>>
+\* D6: three constrained primitives P1 <- P2 <- P3 declared in every order (see F9 of ConstraintsGen)
+Perms3 == {<<1, 2, 3>>, <<1, 3, 2>>, <<2, 1, 3>>, <<2, 3, 1>>, <<3, 1, 2>>, <<3, 2, 1>>}
+D6 == { [Scn(kind, FALSE, <<<<>>>>, <<<<a>>, <<>>, p3>>) EXCEPT !.porder = po] :
+          kind \in {"cprim", "listcprim"}, po \in Perms3,
+          a \in Small({3}) \cup {PatAtom(<<"ab">>, "none")},
+          p3 \in {<<>>, <<LenAtom(">=", 1, "L", "none", "const")>>} }
+\* D7: the leaf class of a model-typed chain is @implementation_specific (impl = its level): its definition comes
+\* from a snippet, everything else (ModelType, the choice, the parents) is generated
+D7 == { [Scn(kind, TRUE, cls, IF kind = "cprim" THEN <<<<LenAtom("<=", 4, "L", "none", "const")>>>> ELSE <<>>) EXCEPT !.impl = Len(cls)] :
+          kind \in {"str", "list", "cprim"},
+          cls \in UNION { {<<<<a>>, leaf>>, <<<<a>>, <<>>, leaf>>} :
+                             a \in Small({3}), leaf \in {<<>>, <<LenAtom("<=", 2, "L", "none", "const")>>} } }
+\* D8: astral ranges spanning 1 / 2 / exactly 3 / 8 high surrogates (strings made of the code points at the block edges)
+ArIds == {"ar1", "ar2", "ar3", "ar8"}
+D8 == {Scn("str", FALSE, <<<<PatAtom(<<p>>, "none")>>>>, <<>>) : p \in ArIds}
+      \cup {Scn(kind, FALSE, <<<<>>>>, <<<<PatAtom(<<p>>, "none")>>>>) : kind \in {"cprim", "listcprim"}, p \in ArIds}
+      \cup {Scn("str", TRUE, <<<<PatAtom(<<"ar8">>, "none")>>, <<PatAtom(<<p>>, "none")>>>>, <<>>) : p \in {"ar2", "ar3"}}
+
+Families == <<D1, D2, D3, D4, D5, D6, D7, D8>>
 Scenarios == {S \in UNION {Families[j] : j \in DOMAIN Families} : WellGuarded(S)}
 
 WithCases(S) == LET valid == ValidCases(S)
